@@ -41,14 +41,29 @@ EXPLANATION = (
     "(P2, R19.2) the `|` dependencies of "
     "step k are module_to_output[m] for the same deps binding, filtered only "
     "by `!= default_output`, each escaped and placed after ' | ' in the build "
-    "line.  (P3, R19.2) module_to_imports_map[module] and "
+    "line; a comprehension over a comprehension (`x for x in (out[m] for m in "
+    "deps) if x != default`) is read as its flattening: a layer variable "
+    "stands for the element expression of the layer it walks, the filters of "
+    "all layers count.  (P3, R19.2) module_to_imports_map[module] and "
     "module_to_output[module] are stored in the same loop iteration and the "
     "imports file of the step holds that very map.  By induction every "
     "direct entry is a declared dependency and every inherited entry was "
     "built before a declared dependency; ninja starts a step only after its "
     "implicit dependencies, so no schedule reads a stub before it exists.  "
     "Cycles: first-pass outputs carry a distinct non-empty suffix and "
-    "second-pass deps are extended by the cycle (R19.3).  R19.4 decides that "
+    "second-pass deps are extended by the cycle (R19.3): the yields are "
+    "judged in yield_sorted_modules and in every generator of the module it "
+    "delegates to with `yield from self.<helper>(..)`; the FIRST_PASS action is "
+    "never CHECK (a dominating `if a == CHECK: a = INFER`, a constant, a "
+    "conditional expression on `a == CHECK` / `a != CHECK`, or a copy of a name "
+    "already known not to be CHECK; anything else is an analysis error); the "
+    "SECOND_PASS deps are `deps += tuple(<list filled with every cycle "
+    "module>)` or `deps += tuple(m for m, .. in <the list the SECOND_PASS loop "
+    "walks>)` without filter; the shape of `modules[0]` is taken from the "
+    "appended tuples, a list comprehension of tuples, or the list returned by "
+    "a method of the runner.  Methods of PytypeRunner are resolved through the "
+    "module-local MRO (they may live in a module-local base class; a non-local "
+    "base that precedes the definition is an analysis error).  R19.4 decides that "
     "every path field of the build line is escaped exactly once and that "
     "escape_ninja_path computes, for EVERY path, the one function ninja's "
     "lexer inverts: each newline, space, ':' and '$' becomes '$' + itself "
@@ -78,6 +93,9 @@ ASSUMPTIONS = [
     "the (group, deps) sequence handed to PytypeRunner is in dependency order "
     "(importlab); a dependency missing from module_to_output raises KeyError "
     "at plan time instead of producing a wrong plan",
+    "self in setup_build / yield_sorted_modules / run is a PytypeRunner (not a "
+    "subclass overriding the writers); generator expressions nested as the "
+    "iterable of a comprehension are exhausted when that comprehension is",
     "roles of parameters are taken by position from the def of "
     "get_imports_map / write_build_statement / write_imports; locals are "
     "identified by data flow, never by name",
